@@ -45,6 +45,9 @@ pub enum Profile {
     /// beyond the periodical-sync interval (no maintenance nested in the calls), explicit sync()
     /// every few operations
     Batch,
+    /// C08 and the lookup properties under injected faults: a callback of the caller (V::clone,
+    /// the weigher, the predicate of invalidate_entries_if) panics at a chosen call
+    Fault,
 }
 
 impl Profile {
@@ -65,6 +68,7 @@ impl Profile {
             "pure" => Profile::Pure,
             "bulk" => Profile::Bulk,
             "batch" => Profile::Batch,
+            "fault" => Profile::Fault,
             _ => return None,
         })
     }
@@ -167,6 +171,7 @@ pub fn gen_config(rng: &mut Rng, profile: Profile) -> Config {
     };
     let weigher = match profile {
         Capacity => rng.chance(4, 5),
+        Fault => rng.chance(3, 4),
         _ => rng.chance(1, 2),
     };
     let (ttl, tti) = match profile {
@@ -322,7 +327,46 @@ impl Gen {
             Pure => [28, 26, 0, 0, 5, 2, 2, 12, 0, 10],
             Bulk => [10, 40, 25, 5, 2, 0, 0, 10, 5, 0],
             Batch => [34, 22, 2, 1, 12, 1, 0, 1, 9, 18],
+            Fault => [30, 22, 6, 5, 6, 3, 6, 10, 5, 7],
         };
+        if self.profile == Fault && self.rng.chance(1, 9) {
+            // arm a fault, then an operation that is likely to reach the callback
+            let resident: Vec<u32> = truth.visible_candidates(now);
+            let mut sites: Vec<u8> = Vec::new();
+            if cfg.kind == Kind::Sync {
+                sites.push(crate::types::SITE_CLONE);
+            }
+            if cfg.weigher {
+                sites.push(crate::types::SITE_WEIGHER);
+                sites.push(crate::types::SITE_WEIGHER);
+            }
+            if unsync {
+                sites.push(crate::types::SITE_PRED);
+            }
+            if !sites.is_empty() {
+                let site = *self.rng.pick(&sites);
+                let nth = *self.rng.pick(&[0u32, 0, 0, 1, 1, 2, 3]);
+                let k = self.rng.below(nkeys as u64) as u32;
+                let kr = if resident.is_empty() { k } else { *self.rng.pick(&resident) };
+                let follow = match site {
+                    crate::types::SITE_CLONE => {
+                        if self.rng.chance(1, 2) {
+                            Op::Get { k: kr }
+                        } else {
+                            let wt = self.weight(cfg);
+                            Op::Insert { k: if self.rng.chance(2, 3) { kr } else { k }, vid: self.vid(), w: wt }
+                        }
+                    }
+                    crate::types::SITE_WEIGHER => {
+                        let wt = self.weight(cfg);
+                        Op::Insert { k: if self.rng.chance(1, 3) { kr } else { k }, vid: self.vid(), w: wt }
+                    }
+                    _ => Op::InvalidateIf { p: *self.rng.pick(&[Pred::All, Pred::KeyEven, Pred::ValEven, Pred::KeyLt(nkeys / 2 + 1)]) },
+                };
+                self.script.push_back(follow);
+                return Op::ArmFault { site, nth };
+            }
+        }
         if !unsync {
             w[6] = 0;
         }
